@@ -166,7 +166,9 @@ def gen(tier, seed):
 
 
 def suites(tier, seed):
-    return [
+    return [Suite("reply-then-close", "machine", lambda: mg.reply_close_cases(Rng(seed + 77), kinds=("conn", "chan")), monitor=monitor, nontrivial=lambda c, il: True, canon=mg.canon_nondet, candidate_ok=mg.candidate_ok, exhaustive=True,
+                  rule="directed: a call in flight on channel 1, a second channel busy; the reply and a server close arrive back to back (one read / two reads / handed over directly; reply taken before or after the close) for queue bounds 0, 1, 2, 16: both reach the caller in order, the other channel keeps working (channel close) or is told (connection close)"),
+            
         Suite("batches", "machine", lambda: gen(tier, seed), monitor=monitor, nontrivial=nontrivial, exhaustive=True,
               rule="ALL ordered selections of 1..4 of the five event kinds {A server connection close, B server close of channel 1, C channel-0 request (open_channel / listen_for_connection_blocked / Connection::close), D request on channel 1, E request on channel 2} = 205 batches x 6 pre-states (idle; calls in flight; consumer with half-received content; listeners; client close already sent; channel 2 not open), requests made pending first, the real poll consulted, then the events handed to the real handle_steady_event in batch order; A and B share one stream event in the order given"),
     ]
